@@ -309,7 +309,7 @@ func runC02(c *Ctx) {
 	}
 	// ---------------- O2.3 / O2.5
 	if cn := P.Func("core/schedule", "compositeSchedule", "Next"); cn != nil && startNext != nil {
-		c02FinalOnlyFromLastPart(c, cn, startNext)
+		c02FinalOnlyFromLastPart(c, "O2.9", cn, startNext)
 	} else {
 		c.Anchor("O2.9", "core/schedule.(*compositeSchedule).Next / startNext")
 	}
@@ -520,11 +520,35 @@ func runC02(c *Ctx) {
 				cc := CC(in)
 				return IsFieldLoad(cc.Args[1], "callbackOnFinishSchedule", "onFinish")
 			}
-			w := func(in ssa.Instruction) (int, int) {
+			w0 := func(in ssa.Instruction) (int, int) {
 				if isDo(in) {
 					return 1, 1
 				}
 				return 0, 0
+			}
+			// a helper method of the wrapper (e.g. finish()) counts with what all its paths do
+			helper := map[*ssa.Function]Interval{}
+			w := func(in ssa.Instruction) (int, int) {
+				if lo, hi := w0(in); hi > 0 {
+					return lo, hi
+				}
+				cc := CC(in)
+				if cc == nil || cc.StaticCallee() == nil || cc.StaticCallee().Pkg != cbNext.Pkg || len(cc.StaticCallee().Blocks) == 0 {
+					return 0, 0
+				}
+				if _, isGo := in.(*ssa.Go); isGo {
+					return 0, 0
+				}
+				g := cc.StaticCallee()
+				iv, ok := helper[g]
+				if !ok {
+					iv = PathQuery{Fn: g, Weight: w0}.Count()
+					helper[g] = iv
+				}
+				if iv.NoPath {
+					return 0, 0
+				}
+				return iv.Min, iv.Max
 			}
 			// Next
 			var nx *ssa.Call
@@ -592,7 +616,7 @@ func runC02(c *Ctx) {
 					c.Check(okUse, "O2.7", fk(g)+":onFinish-only-through-once", in.Pos(), "the finish callback may only be handed to onFinishOnce.Do")
 				})
 			}
-			c.Floor("O2.7", "uses of callbackOnFinishSchedule.onFinish", n, 2)
+			c.Floor("O2.7", "uses of callbackOnFinishSchedule.onFinish", n, 1)
 		}
 	}
 	// ---------------- O2.8
@@ -658,11 +682,11 @@ func isComposite(v ssa.Value) bool {
 // that were left when C was made is provably 1: some len(s.scheds) value L read
 // in the same critical section as C, minus the startNext shifts between the
 // read and C, is bounded by 1 through the comparisons taken on the path.
-func c02FinalOnlyFromLastPart(c *Ctx, next, startNext *ssa.Function) {
+func c02FinalOnlyFromLastPart(c *Ctx, id string, next, startNext *ssa.Function) {
 	key := fk(next)
 	paths, complete := EnumPaths(next, 4096)
 	if !complete {
-		c.Unknown("O2.9", key+":paths", next.Pos(), "too many paths to enumerate")
+		c.Unknown(id, key+":paths", next.Pos(), "too many paths to enumerate")
 		return
 	}
 	isSchedsLen := func(v ssa.Value) bool {
@@ -702,7 +726,7 @@ func c02FinalOnlyFromLastPart(c *Ctx, next, startNext *ssa.Function) {
 			if cv, isC := ConstCond(okv); isC && cv {
 				continue
 			}
-			c.Unknown("O2.9", key+":ok-result", ret.Pos(), "cannot identify the call that produced the returned ok")
+			c.Unknown(id, key+":ok-result", ret.Pos(), "cannot identify the call that produced the returned ok")
 			bad++
 			continue
 		}
@@ -714,7 +738,7 @@ func c02FinalOnlyFromLastPart(c *Ctx, next, startNext *ssa.Function) {
 			continue // recursive retry: decided inductively
 		}
 		if !isPartNext(call) {
-			c.Unknown("O2.9", key+":ok-result", ret.Pos(), "the returned ok does not come from a part's Next or from the retry")
+			c.Unknown(id, key+":ok-result", ret.Pos(), "the returned ok does not come from a part's Next or from the retry")
 			bad++
 			continue
 		}
@@ -793,14 +817,14 @@ func c02FinalOnlyFromLastPart(c *Ctx, next, startNext *ssa.Function) {
 			}
 		}
 		if proved {
-			c.OK("O2.9", fmt.Sprintf("%s:final-not-ok-only-from-the-last-part#%d", key, nFinal), ret.Pos(), why)
+			c.OK(id, fmt.Sprintf("%s:final-not-ok-only-from-the-last-part#%d", key, nFinal), ret.Pos(), why)
 		} else {
 			bad++
-			c.Bad("O2.9", fmt.Sprintf("%s:final-not-ok-only-from-the-last-part#%d", key, nFinal), ret.Pos(),
+			c.Bad(id, fmt.Sprintf("%s:final-not-ok-only-from-the-last-part#%d", key, nFinal), ret.Pos(),
 				"a path returns ok=false from a part's Next without the comparisons on that path proving that it was the last part (len(scheds) minus shifts <= 1, read in the same critical section): the composite reports 'finished' while later parts still hold tokens; path "+pathBlocks(p))
 		}
 	}
-	c.Floor("O2.9", "paths of compositeSchedule.Next returning a part's ok=false", nFinal, 2)
+	c.Floor(id, "paths of compositeSchedule.Next returning a part's ok=false", nFinal, 2)
 }
 
 func flipTok(op token.Token) token.Token {
